@@ -10,6 +10,7 @@ package props
 import (
 	"context"
 	"database/sql"
+	"errors"
 	"fmt"
 	"os"
 	"path/filepath"
@@ -263,8 +264,14 @@ func execC12(c c12Case) (res core.Result) {
 			}
 			kindsRunning.Store(name, true)
 			logEv("begin %s", name)
+			t0 := time.Now()
 			err := fn(octx)
 			logEv("end %s err=%v", name, err)
+			if err != nil && errors.Is(err, context.DeadlineExceeded) && time.Since(t0) >= 19*time.Second {
+				// the operation used up its whole 20 s budget waiting: no step of any operation takes seconds here (busy
+				// timeouts are 20 ms, shutdown retries 1 s), so something it queued on is never released
+				setV(&core.Violation{Oracle: "operation-starved", Msg: fmt.Sprintf("operation %s waited 20s and gave up (%v): a lock or semaphore it queued on is never released\n%s", name, err, c12DumpGoroutines())})
+			}
 			kindsRunning.Delete(name)
 			running.Add(-1)
 		}()
